@@ -366,6 +366,29 @@ def corr_algebra(run, quick):
                         run.corr_break("corr:operators", {**meta, "layer": "in-place call did not return the receiver"})
                         nbad += 1
                     b.add(f"diff genalgop {name} {s} {L} " + cx_send(fin), cx_bits(r.ndarray), meta, f"genalgop:{name}:{kind}")
+    # the row placement of `m1 ± m2` (np.add / np.subtract branch of __array_ufunc__), incl. `out=` aliasing an operand
+    for (L1, L2) in ([(0, 0), (1, 3), (3, 1), (2, 2), (4, 0)] if quick else [(a, c) for a in range(0, 5) for c in range(0, 5)]):
+        for s in (0, -1, 2):
+            if abs(s) > min(L1, L2):
+                continue
+            for kind in ["random", "special", "nonfinite"]:
+                w1 = rand_weights(rng, (L1 + 1) ** 2, kind)
+                w2 = rand_weights(rng, (L2 + 1) ** 2, "random" if kind == "nonfinite" else kind)
+                f1 = spherical.Modes(w1.copy(), spin_weight=s, ell_min=0, ell_max=L1)
+                f2 = spherical.Modes(w2.copy(), spin_weight=s, ell_min=0, ell_max=L2)
+                send = cx_send(np.concatenate([f1.ndarray, f2.ndarray]))
+                for name, fn in (("add", lambda x, y: x + y), ("subtract", lambda x, y: x - y)):
+                    forms = [("operator", lambda: fn(f1.copy(), f2.copy()))]
+                    if L1 >= L2:
+                        def inplace(name=name):
+                            g = f1.copy()
+                            return np.add(g, f2, out=g) if name == "add" else np.subtract(g, f2, out=g)
+                        forms.append(("out-is-first-operand", inplace))
+                    for form, call in forms:
+                        with np.errstate(all="ignore"):
+                            r = call()
+                        b.add(f"diff genaddrows {name} {L1} {L2} " + send, cx_bits(r.ndarray), {"op": name, "s": s, "L1": L1, "L2": L2, "kind": kind, "form": form, "model": "generated"},
+                              f"genaddrows:{name}:{form}:{kind}")
     return nbad + b.flush()
 
 
